@@ -18,7 +18,7 @@ using namespace opensmt;
 // ------------------------------------------------------------------ ghost state
 static int g_polls, g_stop_seen, g_work_after_stop, g_cancel0_after_stop, g_end_after_stop, g_end_calls;
 static int g_level, g_zero_calls, g_zero_after_stop, g_complete_ok, g_last_pick_undef, g_confl_pending;
-static int g_ok_at_stop, g_bt0;
+static int g_ok_at_stop, g_bt0, g_pending0_at_stop;
 static CoreSMTSolver * S;
 
 static void work() { if (g_stop_seen) g_work_after_stop++; }
@@ -35,7 +35,7 @@ extern "C" bool stub_okContinue(CoreSMTSolver const * s) {
     g_polls++;
     bool go = nondet_bool();
     if (g_polls >= POLLS) go = false;      // bound: the stop request arrives at the latest at poll number POLLS
-    if (!go && !g_stop_seen) { g_stop_seen = 1; g_ok_at_stop = s->ok; }
+    if (!go && !g_stop_seen) { g_stop_seen = 1; g_ok_at_stop = s->ok; g_pending0_at_stop = (g_confl_pending && g_level == 0); }
     return go;                              // after a stop the flag may even be reset again (resetGlobalStop): still arbitrary
 }
 extern "C" void stub_runPeriodic(CoreSMTSolver *) { /* allowed between the two polls */ }
@@ -149,7 +149,7 @@ extern "C" void h_search() {
 
     g_polls = g_stop_seen = g_work_after_stop = g_cancel0_after_stop = g_end_after_stop = g_end_calls = 0;
     g_final_calls = g_final_n = 0;      // g_order_set starts all-false (static storage, one call per run)
-    g_level = 0; g_zero_calls = g_zero_after_stop = 0; g_complete_ok = 0; g_last_pick_undef = 0; g_confl_pending = 0; g_ok_at_stop = 1; g_bt0 = 0;
+    g_level = 0; g_zero_calls = g_zero_after_stop = 0; g_complete_ok = 0; g_last_pick_undef = 0; g_confl_pending = 0; g_ok_at_stop = 1; g_bt0 = 0; g_pending0_at_stop = 0;
 
     int nof_conflicts = (int)(nondet_u8() & 3) - 1;
     lbool res = s->search(nof_conflicts);
@@ -158,10 +158,17 @@ extern "C" void h_search() {
 #ifdef MUT_WRONG
         VASSERT(res == l_True, "deliberately wrong: stopped search returns l_True");
 #endif
-        VASSERT(res == l_Undef, "after okContinue() answered stop, search returns l_Undef");
         VASSERT(g_work_after_stop == 0, "after okContinue() answered stop, no propagation/analysis/decision/theory call is made");
-        VASSERT(g_zero_after_stop == 0 && s->ok == (bool)g_ok_at_stop, "a stop never marks the solver inconsistent");
-        VASSERT(g_cancel0_after_stop == 1 && g_end_after_stop == 1, "a stopped search backtracks to level 0 and notifies the end exactly once");
+        if (g_pending0_at_stop) {
+            // propagate() had just returned a conflict at decision level 0: the instance is unsatisfiable, and the conflict cannot be
+            // found again (the propagation queue is empty) - it must not be dropped
+            VASSERT(res == l_False && g_zero_calls == 1 && !s->ok, "a level-0 conflict found right before the stop was observed is not dropped: l_False");
+            VWITNESS("search-stopped-with-level0-conflict");
+        } else {
+            VASSERT(res == l_Undef, "after okContinue() answered stop, search returns l_Undef");
+            VASSERT(g_zero_after_stop == 0 && s->ok == (bool)g_ok_at_stop, "a stop never marks the solver inconsistent");
+            VASSERT(g_cancel0_after_stop == 1 && g_end_after_stop == 1, "a stopped search backtracks to level 0 and notifies the end exactly once");
+        }
         VASSERT(g_polls <= POLLS, "no poll after the stop was observed beyond the bound");
         VWITNESS("search-stopped");
         if (g_polls >= 3 && g_level == 0) { VWITNESS("search-stopped-late"); }
@@ -183,7 +190,7 @@ extern "C" void h_search() {
         VASSERT(s->conflict_frame == 0, "conflict_frame is only set from a final conflict over the assumptions");
     }
     if (res == l_False) {
-        VASSERT(g_zero_calls == 1 && !s->ok && !g_stop_seen, "l_False only through the zero-level conflict handler, never after a stop");
+        VASSERT(g_zero_calls == 1 && !s->ok && (!g_stop_seen || g_pending0_at_stop), "l_False only through the zero-level conflict handler, after a stop only for an already found level-0 conflict");
         VWITNESS("search-unsat");
     } else {
         VASSERT(g_zero_calls == 0 && s->ok, "ok stays true unless l_False is returned");
